@@ -135,3 +135,6 @@ pub fn pure_parts() -> Vec<Part> {
         Part { name: "kernloc", genome_len: 24, cases_quick: 50_000, cases_thorough: 2_000_000, threads: 16, max_shrink_iters: 2000, check: Box::new(check_kernloc), remote: None },
     ]
 }
+
+pub const RULE: &str = "names: pairs of distinct glyph names built from an alphabet of case variants, reserved characters, '%XX' / '^N' look-alikes, device names and Unicode (3/4 related by one or two edits: case flip, escaped spelling, case-code suffix, insert/delete/replace); kernloc: pairs of distinct normalized locations on 1-3 axes, 2/3 differing by a small step (2^-14 .. 0.1) on one axis; oracle: distinct inputs map to distinct file names (also ASCII case-folded for names). non-trivial = a name outside [a-z0-9._] / locations closer than 0.05; distinct = hash of the pair";
+pub const ASSUMPTIONS: &[&str] = &["case-insensitive collisions are checked for ASCII case folding only (Unicode case folding of the file system is out of scope)"];
